@@ -47,6 +47,7 @@ func runC08(p *Prog, r *Report) {
 	c08R6(p, r)
 	c08R7(p, r)
 	c08R8(p, r)
+	c08R9(p, r)
 	// R5: the store file follows every acknowledged change (shared with C20-R2)
 	credFlushRule(p, r, "C08-R5")
 }
@@ -577,4 +578,100 @@ func c08ValueID(fc, c *FuncCtx, e ast.Expr, at int) string {
 	}
 	sort.Strings(reaching)
 	return fmt.Sprintf("%s%s@{%s}", root.Name(), path, strings.Join(reaching, ","))
+}
+
+// c08R9: check and insert are one critical section. Every store of an element into one of the
+// manager's credential maps is preceded, with the manager's mutex held without interruption, by
+// a lookup in that same map (the "user exists" / "key already in use" test): a lookup made in an
+// earlier critical section proves nothing about the map at the time of the store, and two
+// concurrent calls both pass it.
+func c08R9(p *Prog, r *Report) {
+	const rule = "C08-R9"
+	r.Rule(rule, "check-then-insert atomicity: in every ManagedServer method, a store m[k] = v into cachedCredMap or cachedUserLookupMap is dominated by a read of the same map from which the store is reachable without passing any Unlock/RUnlock of the manager's mutex")
+	pkg := p.Pkg("cred")
+	n := 0
+	p.AllFuncs(pkg, func(fc *FuncCtx) {
+		recv := fc.RecvObj()
+		if recv == nil || namedTypeName(recv.Type()) != "ManagedServer" {
+			return
+		}
+		info := fc.Info()
+		var unlocks []int
+		for _, cs := range fc.AllCalls() {
+			op, mu := mutexOp(info, cs.Call)
+			if (op == opUnlock || op == opRUnlock) && mu != nil {
+				if root, _, ok := pathOf(info, mu); ok && root == recv {
+					unlocks = append(unlocks, cs.V)
+				}
+			}
+		}
+		isMap := func(e ast.Expr) string {
+			root, path, ok := pathOf(info, e)
+			if !ok || root != recv {
+				return ""
+			}
+			if path == ".cachedCredMap" || path == ".cachedUserLookupMap" {
+				return path[1:]
+			}
+			return ""
+		}
+		for _, v := range fc.G.V {
+			as, ok := v.Node.(*ast.AssignStmt)
+			if !ok || v.Kind != VStmt {
+				continue
+			}
+			for _, l := range as.Lhs {
+				ix, ok := ast.Unparen(l).(*ast.IndexExpr)
+				if !ok {
+					continue
+				}
+				m := isMap(ix.X)
+				if m == "" {
+					continue
+				}
+				n++
+				// reads of the same map that dominate the store
+				good := false
+				for _, u := range fc.G.V {
+					if u.Node == nil || u.ID == v.ID || !fc.G.Dominates([]int{u.ID}, v.ID) {
+						continue
+					}
+					reads := false
+					inspectNoLit(u.Node, func(x ast.Node) bool {
+						if ix2, ok := x.(*ast.IndexExpr); ok && isMap(ix2.X) == m {
+							// not the left-hand side of a store
+							isStore := false
+							if as2, ok := u.Node.(*ast.AssignStmt); ok {
+								for _, l2 := range as2.Lhs {
+									if ast.Unparen(l2) == ast.Expr(ix2) {
+										isStore = true
+									}
+								}
+							}
+							if !isStore {
+								reads = true
+							}
+						}
+						return true
+					})
+					if !reads {
+						continue
+					}
+					interrupted := false
+					after := fc.G.ReachAfter(u.ID, nil, nil)
+					for _, ul := range unlocks {
+						if after[ul] && fc.G.ReachAfter(ul, nil, nil)[v.ID] {
+							interrupted = true
+						}
+					}
+					if !interrupted {
+						good = true
+					}
+				}
+				r.Check(good, rule, fmt.Sprintf("%s:store-into-%s", fc.Name, m), p.posStr(as.Pos()), "the store follows a lookup in "+m+" made in the same critical section", "the element is stored into "+m+" without a lookup of that map in the same critical section (the mutex is released between the check and the store, or there is no check): two concurrent calls both pass the check, and the cache, the live maps and the listing disagree about the user or the key")
+			}
+		}
+	})
+	r.Count("credential_map_element_stores", n)
+	r.Floor(rule, 3)
 }
